@@ -62,6 +62,7 @@ def check(repo, tier="quick"):
     c02_lookup.rule_lookups(repo, res, sf, reach, exc)
     rule_raises(repo, res, sf, reach, exc)
     rule_reporting(repo, res, reach, exc)
+    rule_level_dict(repo, res, sf, exc)
 
     res.floor("C02.A1", 6)
     res.floor("C02.1", 60)
@@ -851,3 +852,65 @@ def check_hint_template(res, c, fn, where):
             except ValueError as e:
                 ok, det = False, "malformed after formatting: %s" % e
             res.check(ok, "C02.6", "%s.bitstream_viewer_hint:template" % c.name, where, det, by="only {cmd} {file} {offset} remain")
+
+
+def rule_level_dict(repo, res, sf, exc):
+    """C02.6 (lookups keyed by exception attributes): ValueNotAllowedInLevel /
+    QuantisationMatrixValueNotAllowedInLevel explain themselves with
+    level_constrained_values["level"] and LEVELS[level].  The dictionary is
+    state["_level_constrained_values"]; it holds "level" iff an
+    assert_level_constraint(state, "level", ...) succeeded earlier in the
+    sequence -- so that call must precede every other level check on every
+    path, and the "level" check itself must be unable to fail for a valid
+    Levels value."""
+    users = []
+    for cname, c in exc.classes.items():
+        for mname, fn in c.methods.items():
+            for n in ast.walk(fn):
+                if isinstance(n, ast.Subscript) and const_str(n.slice) == "level" and isinstance(n.value, ast.Attribute) and dotted(n.value.value) == "self":
+                    users.append((cname, mname, n.value.attr))
+    res.info["exceptions_reading_level_from_their_dict"] = sorted(set(u[0] for u in users))
+    if not users:
+        return
+    groups = {}
+    for mod, fn, call, key, ok, stack in sf.level_dict_obs:
+        g = groups.setdefault((mod.rel, fn, key), [True, stack])
+        if not ok:
+            g[0] = False
+            g[1] = stack
+    for (rel, fn, key), (ok, stack) in groups.items():
+        res.check(ok, "C02.6", "%s:level-before-%s" % (fn, key), "%s:%s" % (rel, fn), "assert_level_constraint(state, %r, ...) can run before the level itself has been recorded: if it fails, %s.explain() reads level_constrained_values['level'] and raises KeyError instead of explaining" % (key, users[0][0]), by="assert_level_constraint(state, 'level', ...) precedes it on every path", ) if True else None
+    # quant_matrix hands the same dictionary to its own exception through assert_in
+    # table facts: a valid Levels value always passes the "level" check, and LEVELS / the level row cover Levels
+    from .. import enc_tables
+
+    rows = repo.read_csv_rows("vc2_conformance/level_constraints.csv")
+    level_row = None
+    for r in rows:
+        if r and r[0].strip() == "level":
+            level_row = r[1:]
+    lv = repo.ext.enums.get("Levels", {})
+    allowed = set()
+    if level_row:
+        last = ""
+        for cell in level_row:
+            c = cell.strip()
+            from ..extables import _is_ditto
+
+            if _is_ditto(cell) or not c:
+                c = last
+            last = c
+            for part in c.split(","):
+                part = part.strip()
+                if part.isdigit():
+                    allowed.add(int(part))
+                elif "-" in part and all(x.strip().isdigit() for x in part.split("-")):
+                    a, b = [int(x) for x in part.split("-")]
+                    allowed |= set(range(a, b + 1))
+                elif part == "any":
+                    allowed |= set(lv.values())
+    missing = sorted(set(lv.values()) - allowed)
+    res.check(level_row is not None and not missing, "C02.6", "levels:every-level-has-a-column", "vc2_conformance/level_constraints.csv", "Levels values %s appear in no column of the level row: the very first level check would fail with an empty dictionary and the error could not explain itself" % missing, by="all %d Levels values are allowed by the level row" % len(lv))
+    levels_rows = set(repo.ext.lookups.get("LEVELS", {}).get("rows", {}))
+    missing = sorted(set(lv.values()) - levels_rows)
+    res.check(not missing, "C02.6", "levels:LEVELS-covers-enum", "vc2_data_tables/csv/levels.csv", "LEVELS has no row for Levels values %s" % missing, by="LEVELS covers the enum")
